@@ -207,7 +207,7 @@ impl W {
     }
 
     pub fn mk_sub(&self, s: u8, id: u32, gate: u8, gate_all: bool, read_wh: u32) -> ScriptedSub {
-        ScriptedSub { ctx: self.ctx.clone(), store: s, id, gate, gate_all, read_wh }
+        ScriptedSub { ctx: self.ctx.clone(), store: s, id, gate, gate_all, read_wh, counter: None }
     }
 
     /// add_subscriber with a fresh scripted direct subscriber
@@ -229,6 +229,15 @@ impl W {
         };
         self.ctx.ev(K::AddRet, s, 0, id, 0, 0, REG_SUB);
         sn
+    }
+
+    /// direct subscriber that bumps `counter` after every notification
+    pub fn add_direct_counted(&self, s: u8, at_build: bool, counter: Arc<Counter>) -> (u32, Box<dyn Subscription>) {
+        let id = self.new_sub_info(s, SK_DIRECT, 0, 0, at_build, false);
+        let mut sub = self.mk_sub(s, id, NOGATE, false, 0);
+        sub.counter = Some(counter);
+        let sub: Arc<dyn Subscriber<St, Act> + Send + Sync> = Arc::new(sub);
+        (id, self.add_sub_arc(s, id, sub, false))
     }
 
     /// a shared subscriber object registered on several stores (C19)
